@@ -573,6 +573,7 @@ def strategy(tier):
 
 PARTS = [
     Part('pipeline-pairs', run, strategy=strategy, examples={'quick': 72, 'thorough': 1600}, per_shard_min=12,
+         case_timeout=0,   # the part has its own limits per pipeline run
          shrink_budget={'quick': 12, 'thorough': 60},
          floors={'has-interactions': 0.5, 'heavy-atoms-permuted': 0.2, 'rigid-motion': 0.5, 'other-hashseed': 0.3}),
 ]
